@@ -608,6 +608,10 @@ func (f *Frame) callContract(callee *ssa.Function, con *Contract, args []Val, pc
 		if !ok {
 			srt = prog.compSortHint(vc, k)
 			if srt == "" {
+				if len(modRefs[k]) > 0 {
+					// never skip silently: the callee's ensures would then be read over the unchanged pre-state
+					unsup("cannot havoc component %s named in the modifies clause of %s (sort unknown)", k, name)
+				}
 				continue
 			}
 			vc.comp(st, k, srt)
